@@ -13,6 +13,10 @@ def classify(f):
     if k == 'views':
         sym = sorted(set(f['symptoms']))
         return dict(call=call, symptom=sym[0]), f'after {call}: views disagree ({", ".join(sym)})'
+    if k == 'coq_views':
+        sym = list(f['symptoms'])
+        return dict(call=call, symptom='view:' + sym[0]), (f'after {call}: the implementation\'s maintained view(s) {", ".join(sym)} differ from the '
+                                                           'function of the grid defined in coq/circuit/CViews.v')
     if k == 'internal_error':
         return dict(call=call, symptom='internal-error'), f'{call} failed with an internal error: {f["detail"]}'
     return None
